@@ -116,6 +116,12 @@ def group_id(f):
 
 
 def main():
+    # two runs of this check at the same time would share gen/cases_C14_*.v and .work/codec: serialise them
+    with vp.locked("check_C14"):
+        _main()
+
+
+def _main():
     R = vp.Result("C14")
     extra = os.environ.get("VERIF_KNOWN_EXTRA")
     if extra and os.path.exists(extra):
